@@ -35,6 +35,7 @@ type c18Gen struct {
 	funcs   []string
 	globals []string
 	hasType bool
+	lits    []string
 	n       int
 }
 
@@ -119,6 +120,16 @@ func (g *c18Gen) step() {
 		g.add("%s := &T{A: %s, S: \"t\"}", v, g.intExpr())
 		g.structs = append(g.structs, v)
 		g.globals = append(g.globals, v)
+	case k < 9 && g.r.Chance(1, 3):
+		// a function literal that declares a type of its own; several literals use the same type name
+		// (each literal of a program starts at a column of its own: literals at one position of different
+		// chunks are the recorded finding K05, pinned separately)
+		f := g.name("lit" + strings.Repeat("x", len(g.lits)))
+		fld := core.Pick(g.r, []string{"id int", "name string", "w float64", "id int; name string"})
+		init := map[string]string{"id int": "id: a", "name string": "name: fmt.Sprint(a)", "w float64": "w: 0.5", "id int; name string": "id: a, name: \"n\""}[fld]
+		g.add("%s := func(a int) string { type rec struct { %s }; r := &rec{%s}; return fmt.Sprint(r) }", f, fld, init)
+		g.add("println(%s(%d))", f, g.r.Intn(9))
+		g.lits = append(g.lits, f)
 	case k < 9:
 		f := g.name("f")
 		body := "a + 1"
@@ -191,6 +202,21 @@ func (g *c18Gen) step() {
 			return
 		}
 		v := core.Pick(g.r, vars)
+		if g.r.Chance(1, 4) {
+			// a block header variable named like an existing global: inside the block it is the block's own
+			// variable, afterwards the global again
+			w := core.Pick(g.r, vars)
+			switch g.r.Intn(3) {
+			case 0:
+				g.add("for %s := 0; %s < %d; %s++ { print(%s) }", w, w, g.r.Range(1, 4), w, w)
+			case 1:
+				g.add("if %s := %s; %s %% 2 == 0 { print(\"e\", %s) } else { print(\"o\", %s) }", w, g.intExpr(), w, w, w)
+			default:
+				g.add("for %s, e := range []int{4, 5} { print(%s + e) }", w, w)
+			}
+			g.add("println(%s)", w)
+			return
+		}
 		switch g.r.Intn(5) {
 		case 0:
 			g.add("if %s > %d { t := %s * 2; %s = t - 1 } else { %s = %s + 100 }", g.intExpr(), g.r.Intn(40), v, v, v, v)
@@ -252,8 +278,30 @@ func c18Generate(seed int64, idx int) c18Prog {
 	g := &c18Gen{r: core.Derive(seed, "c18", idx)}
 	g.add("import \"fmt\"")
 	n := g.r.Range(4, 14)
+	if g.r.Chance(1, 15) {
+		// a long program: block-local variables of top-level statements are not recycled inside one compile
+		// unit, so slot numbers grow past 7 and 8 bits in the whole-program evaluation only
+		g.add("acc := 0")
+		g.add("xs0 := []int{3, 4}")
+		g.ints, g.globals, g.slices = append(g.ints, "acc"), append(g.globals, "acc", "xs0"), append(g.slices, "xs0")
+		for i, m := 0, g.r.Range(50, 140); i < m; i++ {
+			switch g.r.Intn(3) {
+			case 0:
+				g.add("for i := 0; i < 2; i++ { t := i + %d; acc += t }", i)
+			case 1:
+				g.add("if u := acc + %d; u > 0 { w := u %% 7; acc += w }", i)
+			default:
+				g.add("for k, e := range xs0 { acc += k*e + %d }", i)
+			}
+		}
+		g.add("for k, e := range xs0 { println(k, e, acc) }")
+		n = len(g.lines) + g.r.Range(2, 6)
+	}
 	for len(g.lines) < n {
 		g.step()
+	}
+	for _, l := range g.lits {
+		g.add("println(%s(%d))", l, g.r.Intn(9))
 	}
 	// final non-call expression
 	switch g.r.Intn(4) {
@@ -340,7 +388,7 @@ type c18Case struct {
 }
 
 func runC18(r *core.Run) {
-	r.SetRule("generated sequences of 5-15 single-line top-level statements (import, const, var with and without initialiser, :=, typed byte arithmetic, assignments, op-assign, parallel assignment, if/else-if with init, for, range, switch with multi-value cases - all with block-local variables -, function, method and type definitions before use, calls, slice/map/struct mutation, printing, a final non-call expression); every set of cut points between statements for programs of up to 8 statements, 64 random cut sets beyond. non-trivial = the whole-program evaluation succeeds and defines at least one global; distinct by (program, cut set)")
+	r.SetRule("generated sequences of 5-15 single-line top-level statements (import, const, var with and without initialiser, :=, typed byte arithmetic, assignments, op-assign, parallel assignment, if/else-if with init, for, range, switch with multi-value cases - all with block-local variables -, function, method and type definitions before use, calls, slice/map/struct mutation, printing, block header variables named like existing globals, function literals declaring same-named local types, a final non-call expression); one program in fifteen is long (50-140 top-level block statements before further range loops); every set of cut points between statements for programs of up to 8 statements, 64 random cut sets beyond. non-trivial = the whole-program evaluation succeeds and defines at least one global; distinct by (program, cut set)")
 	r.Assume("metamorphic relation; cuts fall only on top-level statement boundaries; successive Evals share one WithEvalImports map as the REPL does")
 	n := r.N(400, 12000)
 	core.Parallel(n, func(i int) {
@@ -402,6 +450,20 @@ func runC18(r *core.Run) {
 			r.Sample(map[string]any{"statements": p.Lines, "cut_sets_tried": len(cutSets), "whole_program_result": whole.Rets})
 		}
 	})
+	// recorded finding K05: literals at the same position of different chunks share their local types
+	{
+		k05 := c18Prog{Lines: []string{"import \"fmt\"", "a := func() string { type rec struct { w float64 }; return fmt.Sprint(&rec{w: 0.5}) }", "b := func() string { type rec struct { id int }; return fmt.Sprint(&rec{id: 5}) }", "println(a(), b())"}}
+		whole, _ := c18Run(k05, nil)
+		parts, _ := c18Run(k05, []int{1, 2, 3})
+		r.Eval(1)
+		if what := c18Equal(whole, parts); what != "" {
+			if r.Findings().Open("K05") {
+				r.KnownFinding("K05")
+			} else {
+				r.Violate(core.Violation{Check: "c18-k05", What: what, Case: c18Case{Prog: k05, Cuts: []int{1, 2, 3}}, Expected: whole, Observed: parts})
+			}
+		}
+	}
 	r.SetExhaustive(true)
 	r.SetObserved("exhaustive_scope", "all 2^(n-1)-1 cut sets for every generated program with n <= 8 statements; 64 cut sets (always including one-statement-at-a-time) for longer programs")
 }
